@@ -32,22 +32,22 @@ Theorem C07_message_of_arithmetic_arguments : forall ft cfg local tfmt cs fuel f
 Proof. exact message_of_arith_args. Qed.
 Print Assumptions C07_message_of_arithmetic_arguments.
 (** containers, tuples, structs, optionals and variants in the documented notation: the text ToStringVisitor produces for the callbacks of a
-    value is [text_of]: strings verbatim, [a, b], (a, b), Name{ f: v, g: w }, {null}, the enumerator's name or 0xHEX, a variant as its active alternative - from any state of
+    value is [text_of]: strings verbatim, [a, b], (a, b), Name{ f: v, g: w }, {null}, the enumerator's name or 0xHEX, one element and " ... <repeats N times>" for more than 32 zero-size elements, a variant as its active alternative - from any state of
     the visitor (inside a sequence it is preceded by ", "), leaving the state as a single value does *)
 Theorem C07_value_text_is_documented_notation : forall ft v t inv, wt t v = true -> simple inv t = true -> t <> TUnit ->
   prints ft (callbacks_b true t v) (text_of ft t v).
 Proof. exact tostring_prints. Qed.
 Print Assumptions C07_value_text_is_documented_notation.
 
-(** the whole message, for arguments of the [simple] universe (arithmetic, adapted enums over integral types, strings and other sequences of at most 32 elements, tuples, optionals,
-    variants, non-empty structs whose names the printStruct hook does not take over, nesting up to 2048): the format with each {} replaced in order
+(** the whole message, for arguments of the [simple] universe (arithmetic, adapted enums over integral types, strings and other sequences of any length, tuples, optionals,
+    variants, structs whose names the printStruct hook does not take over (empty ones under the hypothesis that the argument's tag holds no definition of the same name), nesting up to 2048): the format with each {} replaced in order
     by the documented notation of the logged value. Links C04 (bytes), C06 (visit) and the state machine. *)
 Theorem C07_message_of_simple_arguments : forall ft cfg local tfmt cs fuel fmt (args : list targ),
   (List.length fmt < fuel)%nat -> count_ph fmt = List.length args -> Forall (targ_ok (print_struct cfg local tfmt cs)) args ->
   message_loop ft cfg fuel local tfmt cs fmt (targs_tags args) (targs_bytes args) ts_init = (subst fmt (targs_texts ft args), true).
 Proof. exact message_of_simple_args. Qed.
 Print Assumptions C07_message_of_simple_arguments.
-(** PARTIAL: empty structs, enums over bool, sequences of more than 32 elements (repeat collapsing), the special struct renderings (time points,
+(** PARTIAL: enums over bool, the special struct renderings (time points,
     durations, addresses, paths, error codes) and recursive hand-written tags are outside these two theorems; they are checked against an
     independent rendering on the implementation and the model (tools/p_C07.py). *)
 
